@@ -227,6 +227,12 @@ class Certificate(AbstractCertificate):
         self.is_default = is_default
 
 
+# A view object may outlive the row it was made from, and the id of a deleted row may be used again:
+# the owner of a scope is identified by row id AND name
+_KEY_ROW = '(SELECT id FROM keys WHERE id=? AND key_name=?)'
+_IDENTITY_ROW = '(SELECT id FROM identities WHERE id=? AND identity=?)'
+
+
 class Key(AbstractKey):
     """
     A Key. It behaves like an immutable ``dict`` from :any:`FormalName` to :any:`Certificate`.
@@ -268,8 +274,12 @@ class Key(AbstractKey):
         self._key_bits = key_bits
         self.is_default = is_default
 
+    def _owner(self) -> tuple:
+        # The row that holds this Key: identified by id AND name, since the id of a deleted row may be used again
+        return self.row_id, Name.to_bytes(self._name)
+
     def __len__(self) -> int:
-        cursor = self.pib.conn.execute('SELECT count(*) FROM certificates WHERE key_id=?', (self.row_id,))
+        cursor = self.pib.conn.execute('SELECT count(*) FROM certificates WHERE key_id=' + _KEY_ROW, self._owner())
         ret = cursor.fetchone()[0]
         cursor.close()
         return ret
@@ -277,8 +287,8 @@ class Key(AbstractKey):
     def __getitem__(self, name: NonStrictName) -> Certificate:
         name = Name.to_bytes(name)
         sql = ('SELECT id, certificate_name, certificate_data, is_default FROM certificates '
-               'WHERE certificate_name=? AND key_id=?')
-        cursor = self.pib.conn.execute(sql, (name, self.row_id))
+               'WHERE certificate_name=? AND key_id=' + _KEY_ROW)
+        cursor = self.pib.conn.execute(sql, (name,) + self._owner())
         data = cursor.fetchone()
         if not data:
             raise KeyError(name)
@@ -287,7 +297,7 @@ class Key(AbstractKey):
         return Certificate(row_id=row_id, key=self._name, name=cert_name, data=cert_data, is_default=is_default != 0)
 
     def __iter__(self) -> Iterator[FormalName]:
-        cursor = self.pib.conn.execute('SELECT certificate_name FROM certificates WHERE key_id=?', (self.row_id,))
+        cursor = self.pib.conn.execute('SELECT certificate_name FROM certificates WHERE key_id=' + _KEY_ROW, self._owner())
         while True:
             name = cursor.fetchone()
             if not name:
@@ -310,7 +320,7 @@ class Key(AbstractKey):
 
         :return: ``True`` if there is one.
         """
-        cursor = self.pib.conn.execute('SELECT id FROM certificates WHERE is_default=1 AND key_id=?', (self.row_id,))
+        cursor = self.pib.conn.execute('SELECT id FROM certificates WHERE is_default=1 AND key_id=' + _KEY_ROW, self._owner())
         ret = cursor.fetchone() is not None
         cursor.close()
         return ret
@@ -333,8 +343,8 @@ class Key(AbstractKey):
         :return: the default Certificate.
         """
         sql = ('SELECT id, certificate_name, certificate_data, is_default '
-               'FROM certificates WHERE is_default=1 AND key_id=?')
-        cursor = self.pib.conn.execute(sql, (self.row_id,))
+               'FROM certificates WHERE is_default=1 AND key_id=' + _KEY_ROW)
+        cursor = self.pib.conn.execute(sql, self._owner())
         data = cursor.fetchone()
         if not data:
             raise KeyError('No default certificate')
@@ -368,8 +378,12 @@ class Identity(AbstractIdentity):
         self._name = name
         self.is_default = is_default
 
+    def _owner(self) -> tuple:
+        # The row that holds this Identity: identified by id AND name, since the id of a deleted row may be used again
+        return self.row_id, Name.to_bytes(self._name)
+
     def __len__(self) -> int:
-        cursor = self.pib.conn.execute('SELECT count(*) FROM keys WHERE identity_id=?', (self.row_id,))
+        cursor = self.pib.conn.execute('SELECT count(*) FROM keys WHERE identity_id=' + _IDENTITY_ROW, self._owner())
         ret = cursor.fetchone()[0]
         cursor.close()
         return ret
@@ -377,7 +391,7 @@ class Identity(AbstractIdentity):
     def __getitem__(self, name: NonStrictName) -> Key:
         name = Name.to_bytes(name)
         cursor = self.pib.conn.execute('SELECT id, key_name, key_bits, is_default FROM keys '
-                                       'WHERE key_name=? AND identity_id=?', (name, self.row_id))
+                                       'WHERE key_name=? AND identity_id=' + _IDENTITY_ROW, (name,) + self._owner())
         data = cursor.fetchone()
         if not data:
             raise KeyError(name)
@@ -386,7 +400,7 @@ class Identity(AbstractIdentity):
         return Key(self.pib, self._name, row_id, Name.from_bytes(key_name), key_bits, is_default != 0)
 
     def __iter__(self) -> Iterator[FormalName]:
-        cursor = self.pib.conn.execute('SELECT key_name FROM keys WHERE identity_id=?', (self.row_id,))
+        cursor = self.pib.conn.execute('SELECT key_name FROM keys WHERE identity_id=' + _IDENTITY_ROW, self._owner())
         while True:
             name = cursor.fetchone()
             if not name:
@@ -418,7 +432,7 @@ class Identity(AbstractIdentity):
 
         :return: ``True`` if there is one.
         """
-        cursor = self.pib.conn.execute('SELECT id FROM keys WHERE is_default=1 AND identity_id=?', (self.row_id,))
+        cursor = self.pib.conn.execute('SELECT id FROM keys WHERE is_default=1 AND identity_id=' + _IDENTITY_ROW, self._owner())
         ret = cursor.fetchone() is not None
         cursor.close()
         return ret
@@ -440,8 +454,8 @@ class Identity(AbstractIdentity):
 
         :return: the default Key.
         """
-        sql = 'SELECT id, key_name, key_bits, is_default FROM keys WHERE is_default=1 AND identity_id=?'
-        cursor = self.pib.conn.execute(sql, (self.row_id,))
+        sql = 'SELECT id, key_name, key_bits, is_default FROM keys WHERE is_default=1 AND identity_id=' + _IDENTITY_ROW
+        cursor = self.pib.conn.execute(sql, self._owner())
         data = cursor.fetchone()
         if not data:
             raise KeyError('No default key')
